@@ -835,6 +835,17 @@ func (u *Unit) evalSpecCall(env *SpecEnv, c *ECall) Value {
 		if isFloat(to) && isFloat(a.Ty) {
 			return Value{T: a.T, Ty: to}
 		}
+		if isInteger(to) && isFloat(a.Ty) && u.W.FM == FloatAbstract {
+			// same uninterpreted conversion function the executed code uses in this float mode
+			bits, signed := intBits(to.Underlying().(*types.Basic))
+			fname := fmt.Sprintf("f2i_%d", bits)
+			if !signed {
+				fname = fmt.Sprintf("f2u_%d", bits)
+			}
+			u.W.needAbstractOps()
+			u.W.Declare(fname, fmt.Sprintf("(declare-fun %s (Float) Int)", fname))
+			return Value{T: App(fname, "Int", a.T), Ty: to}
+		}
 		u.specErr("conversion %s(%s)", name, a.Ty)
 	case "math.Min", "math.Max", "math.Abs", "math.Sqrt", "math.Floor", "math.Inf", "math.IsNaN", "math.NaN":
 		var args []Value
